@@ -8,6 +8,18 @@ class STLExplainer(LTLExplainer, StlAstVisitor):
 
     def __init__(self):
         LTLExplainer.__init__(self)
+        self.bound_transformer = None
+
+    def set_bound_transformer(self, transformer):
+        # The explanation functions work on sample indices: the bounds of the
+        # timed operators have to be converted from durations (with their
+        # units) to numbers of samples, exactly as the evaluator does.
+        self.bound_transformer = transformer
+
+    def bounds(self, element):
+        if self.bound_transformer is not None:
+            return self.bound_transformer(element)
+        return element.begin, element.end
 
 
     def visit(self, element, args):
@@ -28,9 +40,9 @@ class STLExplainer(LTLExplainer, StlAstVisitor):
         flag = args[1]
         op_signal = self.spec.results[element.children[0]]
         if flag:
-            op_intervals = explain_sat_timed_eventually(op_signal, intervals, element.begin, element.end)
+            op_intervals = explain_sat_timed_eventually(op_signal, intervals, *self.bounds(element))
         else:
-            op_intervals = explain_unsat_timed_eventually(op_signal, intervals, element.begin, element.end)
+            op_intervals = explain_unsat_timed_eventually(op_signal, intervals, *self.bounds(element))
         self.explanations[element.name] = intervals
         self.visit(element.children[0], [op_intervals, flag])
 
@@ -39,9 +51,9 @@ class STLExplainer(LTLExplainer, StlAstVisitor):
         flag = args[1]
         op_signal = self.spec.results[element.children[0]]
         if flag:
-            op_intervals = explain_sat_timed_always(op_signal, intervals, element.begin, element.end)
+            op_intervals = explain_sat_timed_always(op_signal, intervals, *self.bounds(element))
         else:
-            op_intervals = explain_unsat_timed_always(op_signal, intervals, element.begin, element.end)
+            op_intervals = explain_unsat_timed_always(op_signal, intervals, *self.bounds(element))
         self.explanations[element.name] = intervals
         self.visit(element.children[0], [op_intervals, flag])
 
@@ -53,9 +65,9 @@ class STLExplainer(LTLExplainer, StlAstVisitor):
         flag = args[1]
         op_signal = self.spec.results[element.children[0]]
         if flag:
-            op_intervals = explain_sat_timed_once(op_signal, intervals, element.begin, element.end)
+            op_intervals = explain_sat_timed_once(op_signal, intervals, *self.bounds(element))
         else:
-            op_intervals = explain_unsat_timed_once(op_signal, intervals, element.begin, element.end)
+            op_intervals = explain_unsat_timed_once(op_signal, intervals, *self.bounds(element))
         self.explanations[element.name] = intervals
         self.visit(element.children[0], [op_intervals, flag])
 
@@ -64,9 +76,9 @@ class STLExplainer(LTLExplainer, StlAstVisitor):
         flag = args[1]
         op_signal = self.spec.results[element.children[0]]
         if flag:
-            op_intervals = explain_sat_timed_historically(op_signal, intervals, element.begin, element.end)
+            op_intervals = explain_sat_timed_historically(op_signal, intervals, *self.bounds(element))
         else:
-            op_intervals = explain_unsat_timed_historically(op_signal, intervals, element.begin, element.end)
+            op_intervals = explain_unsat_timed_historically(op_signal, intervals, *self.bounds(element))
         self.explanations[element.name] = intervals
         self.visit(element.children[0], [op_intervals, flag])
 
